@@ -4,6 +4,30 @@ import json, os, sys
 ROOT = os.path.dirname(os.path.dirname(os.path.abspath(__file__)))
 
 E1, E2, E3 = "vrt-explorer", "history-bfs", "scope-enum"
+# session 3: what was added to each check's scope (appended to the level text)
+EXTRA = {
+ "C01": " Byte counts also under a sink that fails after every possible number of bytes.",
+ "C02": " Byte counts also under a sink that fails after every possible number of bytes; a third of the cases again behind a line the reader rejects.",
+ "C03": " Plus the size ladder (2^k-1, 2^k, 2^k+1 up to 1025, thorough 8193) of every field size, and a GFF reader with date parsing off.",
+ "C04": " Plus FASTA with ID / sequence-line prefixes and blank lines that hold white space.",
+ "C05": " Plus row-view RevComp/Reverse, going on with the other copy, emptied sequences, Multi layouts with an empty row, and the size ladder 7..4097 (thorough 16385) for every kind.",
+ "C06": " Every case again directly after a rejected call; feature lists of ladder size (3..257, thorough 1025).",
+ "C07": " Plus a rejected AppendColumns among the edits and grids / appends of ladder size (3..257, thorough 1025).",
+ "C08": " Plus every word pair directly after a rejected call, a 6-letter (thorough 21-letter) alphabet with asymmetric matrices, and 260/520-letter words with single indels around 256/512 and gap blocks of 63..129.",
+ "C09": " Plus every word pair directly after a rejected call, a 6-letter (thorough 21-letter) alphabet with asymmetric matrices, and 260/520-letter words with single indels around 256/512 and gap blocks of 63..129 (also through Format).",
+ "C10": " Plus sequences of 2^j+9 letters (j=6..9, thorough 10) with an invalid letter around every power of two; the maps asked for before Build.",
+ "C11": " Plus the size ladder: chunk sizes 2^k-1, 2^k, 2^k+1 to 2049 (thorough 4097) and 7..513 run files.",
+ "C13": " Plus residue histories with 15..513 run files.",
+ "C14": " Plus space G (an earlier Filter call that fails half way) and space H (queries of 2^j+40 letters, plants around every power of two).",
+ "C15": " Plus targets of 2^k-1, 2^k, 2^k+1 (k=11..14) and 6/11/20 kb, a rejected re-optimisation before Align, AlignFrom(Trapezoids()), and Share from an aligner that searched another query.",
+ "C16": " Plus a filter that looks at the piles and piles of 7..257 images joined by a bridging feature.",
+ "C17": " Plus AllValid on ladder lengths to 1025 and uncased complementors spelt in upper / mixed case.",
+ "C18": " Plus records rendered while empty, %.0q after SetEncoding, and (free-running, six processes) first uses made by eight goroutines at once.",
+ "C19": " Plus Map over 7..513 (thorough 2049) one-element chunks on the canonical schedule.",
+ "C12": " Plus 64 / 257 runs (thorough every ladder size to 513) on the canonical schedule.",
+ "C20": " Plus SetExons of the transcript's own slice extended with append, and transcripts of 2..40 and 63..257 exons.",
+}
+
 # id: (engine, level, design_ref, technique, text, note)
 CHECKS = {
  "C18": (E3, "exploration", "DESIGN.md §3 C18",
@@ -102,7 +126,7 @@ def main():
             "evidence_file": f"evidence/{pid}.json",
             "replay_cmd_template": f"./check {pid} --replay {{path}}",
             "engine": eng,
-            "level_claimed": {"category": level, "text": text, "design_ref": ref},
+            "level_claimed": {"category": level, "text": text + EXTRA.get(pid, ""), "design_ref": ref},
             "level_note": note,
             "technique": tech,
         })
